@@ -84,7 +84,8 @@ PressesOut(cur, prev, out, lpk) ==
        IF Contains(prev, k) THEN PressesOut(Tail(cur), prev, out, lpk)
        ELSE PressesOut(Tail(cur), Append(prev, k), out \o PressKeyOut(k), k)
 
-\* a dynamic-macro operator that may have hit a panic site (dynamic_macro.rs:183 / :262)
+\* a dynamic-macro operator that may have hit a panic site (none since fix 72e2986: pop() in
+\* begin_record_macro / stop_macro)
 DynApply(K, D) == IF D.pn # "" THEN [K EXCEPT !.L = Panic(@, D.pn)] ELSE [K EXCEPT !.dyn = D]
 
 \* one custom action on press; K carries L/out etc.
